@@ -144,6 +144,32 @@ def mutate(rng, s):
     return s[:i] + rng.choice(DELIMS + "a") + s[i + 1:]
 
 
+def delim_mutate(rng, s):
+    """replace / delete / insert 1-3 DELIMITER characters (names kept): near-misses of the grammar that keep brackets roughly
+    balanced, e.g. two commas of x<a<b>,c<d>,e> turned into '<' and '>'"""
+    l = list(s)
+    for _ in range(rng.choice([1, 2, 2, 3])):
+        pos = [i for i, c in enumerate(l) if c in DELIMS]
+        if not pos:
+            break
+        i = rng.choice(pos)
+        k = rng.random()
+        if k < 0.6:
+            l[i] = rng.choice([c for c in DELIMS if c != l[i]])
+        elif k < 0.8:
+            del l[i]
+        else:
+            l.insert(i, rng.choice(DELIMS))
+    return "".join(l)
+
+
+def small_tree(rng, depth):
+    nm = rng.choice("abcxyz")
+    if depth <= 0 or rng.random() < 0.3:
+        return (nm, [])
+    return (nm, [small_tree(rng, depth - 1) for _ in range(rng.choice([1, 2, 2, 3]))])
+
+
 TEST_NAMES = ["foo", "foo<bar>", "foo<bar<baz>>", "foo<bar,baz>", "foo<bar<baz>,qux>", "mapping<string,set<UUID>>",
               "foo<", "foo>", "foo<>", "foo,bar", "foo<bar>>", "<foo>", "", "foo<bar>baz", "foo<bar>,", ",", "a<b>,c<d>",
               "a<b,>", "a<,b>", "a<b><c>", "a b<c d, e>", "a<b\n>"]
@@ -169,6 +195,12 @@ def run(ctx):
         for _ in range(2):
             cases.append(mutate(ctx.rng, s))
             ctx.count("mutated_strings")
+    # near-misses: 1-3 delimiter substitutions/deletions/insertions in small nested names
+    nnear = 30000 if ctx.quick else 400000
+    for _ in range(nnear):
+        s = oracle_print(small_tree(ctx.rng, ctx.rng.choice([2, 2, 3, 4])))
+        cases.append(delim_mutate(ctx.rng, s))
+    ctx.count("delimiter_near_misses", nnear)
     # deep / wide names (below the CPython recursion limit)
     for d in (50, 150, 300):
         cases.append("a<" * d + "b" + ">" * d)
@@ -200,7 +232,8 @@ def run(ctx):
     ctx.cov["exhaustive_part"] = "all %d strings over {a,b,<,>,','} of length <= %d" % (n_exh, maxlen)
     ctx.cov["traces_validated_against_impl"] = len(cases)
     ctx.cov["rule"] = ("every string over {a,b,<,>,','} up to length %d, plus random grammar trees (depth<=12, fan-out<=8, names over "
-                       "ASCII/whitespace/NUL/non-BMP) printed, and 2 single-edit mutations of each; non-trivial = contains a delimiter; "
+                       "ASCII/whitespace/NUL/non-BMP) printed, and 2 single-edit mutations of each; small nested names with 1-3 delimiters replaced, deleted or "
+                       "inserted (near-misses); non-trivial = contains a delimiter; "
                        "distinct = distinct string" % maxlen)
     for s in ["mapping<string,set<UUID>>", "a<b,>", cases[n_exh + len(TEST_NAMES)]]:
         ctx.sample({"type_name": s, "impl": _short(impl_parse(g, s))})
